@@ -284,7 +284,8 @@ func staggeredPurge(t *rapid.T, n, episodes int) []prog.Step {
 		follow := [][]string{{"amovefront", "amove", "ains", "aadd", "aset", "adel"}, {"tedit", "tedit", "tstyle"}, {"trins", "trtext", "trdel", "trstyle"}}[kind]
 		dop := prog.Step{Who: x, Op: rapid.SampledFrom(del).Draw(t, "del"), A: rapid.IntRange(0, 7).Draw(t, "a"), B: rapid.IntRange(1, 3).Draw(t, "b")}
 		// C == 0 selects the empty replacement: a pure deletion for tedit/trtext
-		out = append(out, dop, sync(x), sync(r), sync(r), sync(d), sync(d), sync(x))
+		// (three syncs to purge since the F65 fix: pull, report, receive the covering vector)
+		out = append(out, dop, sync(x), sync(r), sync(r), sync(d), sync(d), sync(d), sync(x), sync(x))
 		if rapid.Bool().Draw(t, "serverbuild") {
 			out = append(out, prog.Step{Op: "histview", A: 7, B: 7})
 		}
@@ -322,7 +323,7 @@ func inflightEpisodes(t *rapid.T, n, threshold, episodes int) []prog.Step {
 			fop.Op, fop.E = "syncedit", rapid.SampledFrom(follow).Draw(t, "op")
 			out = append(out, fop)
 		}
-		out = append(out, sync(x), sync(x))
+		out = append(out, sync(x), sync(x), sync(x))
 		if rapid.Bool().Draw(t, "serverbuild") {
 			out = append(out, prog.Step{Op: "histview", A: 7, B: 7})
 		}
